@@ -776,9 +776,9 @@ pub fn run(ctx: &Ctx, c13: bool) {
             automatic,
             false,
             BfsBounds {
-                max_pages: if thorough { 3 } else { 2 },
-                max_pending: if thorough { 66 } else { 50 },
-                max_chunks: if thorough { 5 } else { 4 },
+                max_pages: 3,
+                max_pending: if thorough { 82 } else { 66 },
+                max_chunks: if thorough { 6 } else { 5 },
                 max_states: 30_000_000,
             },
             mode,
